@@ -401,6 +401,8 @@ int64_t cmi_pool_acquire_inner(struct cmb_resourcepool *rpp,
      * amount if any.
      */
     uint64_t rem_claim = req_amount;
+    /* Queueing again within this call keeps the place earned by waiting since now */
+    const double since = cmb_time();
     while (true) {
         const uint64_t available = rpp->capacity - rpp->in_use;
 
@@ -504,7 +506,7 @@ int64_t cmi_pool_acquire_inner(struct cmb_resourcepool *rpp,
 
         /* Wait at the front door until some more becomes available  */
         cmb_assert_debug(rem_claim > 0u);
-        const int64_t sig = cmb_resourceguard_wait(&(rpp->guard), is_available, NULL);
+        const int64_t sig = cmb_resourceguard_wait_since(&(rpp->guard), is_available, NULL, since);
         if ((sig == CMB_PROCESS_PREEMPTED)
             && (cmi_hash_find_index(hhp, key) == 0u)) {
             /* Got thrown out of this pool instead, nothing left to unwind. */
